@@ -4,6 +4,11 @@ ENGINES = [
     {"name": "evloop", "path": "engine/evloop.py", "serves_properties": [],
      "kind_free_text": "controlled event loop for the real Scheduler (interposed executor + events_queue) with stateless "
      "deviation-bounded / full-tree exploration of completion interleavings"},
+    {"name": "progs", "path": "engine/progs.py", "serves_properties": [],
+     "kind_free_text": "exhaustive generator of typed workflow-program ASTs up to a size bound, builder into real redun expressions, "
+     "and a reference interpreter returning the set of admissible outcomes"},
+    {"name": "opseq", "path": "checks/ (BFS loops in each check)", "serves_properties": [],
+     "kind_free_text": "explicit-state BFS over operation histories on the real object against a reference model"},
     {"name": "enum", "path": "checks/ (enumeration loops in each check)", "serves_properties": [],
      "kind_free_text": "bounded-exhaustive enumeration of input shapes with all-pairs / reference-model oracles"},
 ]
@@ -51,6 +56,22 @@ CHECKS += [
      "text": "No interleaving of the drivers under feasible limits reaches a state with no queued event, nothing in flight and a pending "
      "workflow; returning runs leave no job pending, waiting or in flight.",
      "note": _SCHED_NOTE},
+]
+
+CHECKS += [
+    {"id": "C01", "engine": "progs", "level": "model_checking",
+     "technique": "exhaustive enumeration of program ASTs up to a size bound, each executed on the real scheduler under a controlled event loop "
+     "(default schedule + all schedules within a deviation bound) and compared with a reference interpreter",
+     "text": "All ~9.8k typed programs of size <=4 (quick; thorough adds 29k of size 5) are run on the real Scheduler; the outcome must lie in the "
+     "reference interpreter's admissible set. Programs of size <=3 are run under every schedule with <=1 (quick) / <=2 (thorough) deviations, and "
+     "the small family on the real LocalExecutor with thread and process assignments.",
+     "note": _SCHED_NOTE + " Thread/process legs take pool timing as it comes; async mode is not driven."},
+    {"id": "C13", "engine": "opseq", "level": "model_checking",
+     "technique": "explicit-state BFS over all promise operation histories up to a depth bound against a reference model",
+     "text": "All histories of <=4 (quick) / <=5 (thorough) operations over a 31-operation alphabet (resolve/reject, then with returning, raising, "
+     "promise-returning, re-entrantly settling and re-registering callbacks, Promise.all, wait_promises) are replayed on the real Promise "
+     "and on a reference model; callback log and all promise states are compared after every operation.",
+     "note": "The reference model (synchronous delivery, per-promise FIFO) is the trusted base; values are compared by repr."},
 ]
 
 _ALL = [f"C{i:02d}" for i in range(1, 39)]
